@@ -116,6 +116,9 @@ inductive Op
   | mkView (refs : List Ref)
   /-- `view.coords` of a view holding `atoms`: defined iff all of them are still in the molecule (no change) -/
   | viewRead (atoms : List AtomId)
+  /-- an edit made THROUGH a `Substructure` that concerns only the view's own lists (`view.del_bond(b)`, `view.append_bond(b)`,
+      `view.connect(i, j)`, and the calls that are not defined on a view and raise): the molecule is not changed -/
+  | viewLocal
   /-- `view.coords = X` / `view.translate(v)` / `view.transform(R)` …: the rows of the view's atoms, located when the
       access is made, are overwritten with `payloads` (the new coordinates, atom by atom) -/
   | viewWrite (atoms : List AtomId) (payloads : List Nat)
@@ -315,6 +318,7 @@ def step (m : Mol) : Op → Mol × Out
     if (∀ p ∈ l, p.1 ∉ m.bonds.map (·.id)) ∧ (l.map (·.1)).Nodup then
       (l.foldl (fun acc p => pushBond { acc with next := max acc.next (p.1 + 1) } p.1 p.2.1 p.2.2) m, .ok)
     else (m, .err)
+  | .viewLocal => (m, .ok)
   | .mkView refs => (m, if (resolveView m refs).isSome then .ok else .err)
   | .viewRead atoms => (m, if (viewRows m atoms).isSome then .ok else .err)
   | .viewWrite atoms payloads =>
